@@ -105,7 +105,11 @@ def phase_a(item):
             smp = make_samples(logl, logw)
             for mi, kw in enumerate(ENT):
                 try:
+                    _s0 = smp.tobytes()
                     k = s.determine_threshold_entropy(smp, **kw)
+                    if smp.tobytes() != _s0:
+                        errs.append(("entropy-modifies-its-input-arrays", f"logL={logl} logW={logw} {kw}"))
+                        smp = make_samples(logl, logw)
                 except Exception as e:
                     errs.append((f"entropy-raises-{type(e).__name__}", f"{e} logL={logl} logW={logw} {kw}"))
                     continue
@@ -118,8 +122,13 @@ def phase_a(item):
             for mi, kw in enumerate(QNT):
                 lw = np.array(logw) + (np.array(logl) if kw["include_likelihood"] else 0.0)
                 try:
+                    _s0, _v, _w = smp.tobytes(), np.array(logl, dtype=float), np.array(lw, dtype=float)
+                    _v0, _w0 = _v.tobytes(), _w.tobytes()
                     k = s.determine_threshold_quantile(smp, **kw)
-                    cut = float(weighted_quantile(np.array(logl), kw["q"], log_weights=lw, values_sorted=True)[0])
+                    cut = float(weighted_quantile(_v, kw["q"], log_weights=_w, values_sorted=True)[0])
+                    if smp.tobytes() != _s0 or _v.tobytes() != _v0 or _w.tobytes() != _w0:
+                        errs.append(("quantile-modifies-its-input-arrays", f"logL={logl} logW={logw} {kw}"))
+                        smp = make_samples(logl, logw)
                 except Exception as e:
                     errs.append((f"quantile-raises-{type(e).__name__}", f"{e} logL={logl} logW={logw} {kw}"))
                     continue
@@ -205,10 +214,14 @@ def clamp_lattice(n):
 def check_clamp(s, smp, k_own, method, kw, ms, mr, nlive, dc, cap, errs, ctx_txt):
     n = smp.size
     s.min_samples, s.min_remove, s.max_samples, s.draw_constant, s.nlive = ms, mr, cap, dc, nlive
+    smp0 = smp.tobytes()
     try:
         thr = s.determine_log_likelihood_threshold(smp, method=method, **kw)
     except Exception as e:
         errs.append((f"clamp-raises-{type(e).__name__}", f"{e} {ctx_txt}"))
+        return
+    if smp.tobytes() != smp0:
+        errs.append(("threshold-choice-modifies-the-samples-it-is-given", ctx_txt))
         return
     thr = float(thr)
     pos = [i for i in range(n) if smp["logL"][i] == thr]
